@@ -90,6 +90,26 @@ impl Be for NdArr {
             _ => Array2::from_shape_vec((r, c), data.to_vec()).unwrap(),
         }
     }
+    fn vbuild(via: &str, data: &[f64]) -> Array1<f64> {
+        let n = data.len();
+        match via {
+            "v_nat_reversed" => {
+                // negative stride: stored back to front, axis inverted
+                let mut v = Array1::from_iter(data.iter().rev().copied());
+                v.invert_axis(Axis(0));
+                v
+            }
+            "v_nat_strided" => {
+                let big = Array1::from_shape_fn(2 * n, |i| if i % 2 == 0 { data[i / 2] } else { -77.0 });
+                big.slice_move(s![..;2])
+            }
+            "v_nat_offset" => {
+                let big = Array1::from_shape_fn(n + 3, |i| if i >= 2 && i < n + 2 { data[i - 2] } else { 77.0 });
+                big.slice_move(s![2..n + 2])
+            }
+            _ => Array1::from_vec(data.to_vec()),
+        }
+    }
     fn iter_flat(_m: &Array2<f64>) -> Option<Vec<f64>> {
         None
     }
@@ -132,6 +152,20 @@ impl Be for Nalg {
             _ => DMatrix::from_row_slice(r, c, data),
         }
     }
+    fn vbuild(via: &str, data: &[f64]) -> RowDVector<f64> {
+        let n = data.len();
+        match via {
+            "v_nat_offset" => {
+                let big = RowDVector::from_fn(n + 3, |_, j| if j >= 2 && j < n + 2 { data[j - 2] } else { 77.0 });
+                big.columns(2, n).into_owned()
+            }
+            "v_nat_strided" => {
+                let big = RowDVector::from_fn(2 * n, |_, j| if j % 2 == 0 { data[j / 2] } else { -77.0 });
+                big.columns_with_step(0, n, 1).into_owned()
+            }
+            _ => RowDVector::from_vec(data.to_vec()),
+        }
+    }
     fn iter_flat(_m: &DMatrix<f64>) -> Option<Vec<f64>> {
         None
     }
@@ -154,6 +188,13 @@ fn group(g: &mut Gen, grp: i64, nops: usize, out: &mut Out, agree: &mut Out) -> 
     let mut fd: File<Dense64> = File::new();
     g.reset();
     g.vec_bias = grp % 3 == 0;
+    let codec = match grp % 5 {
+        3 => Codec::Scale(if (grp / 5) % 2 == 0 { -60 } else { 40 }),
+        4 => Codec::Ulp,
+        _ => Codec::Plain,
+    };
+    fd.codec = codec;
+    g.mode = codec;
     let mut calls: Vec<OpCall> = vec![];
     let mut evd: Vec<Value> = vec![];
     let mut tries = 0;
@@ -166,12 +207,14 @@ fn group(g: &mut Gen, grp: i64, nops: usize, out: &mut Out, agree: &mut Out) -> 
             evd.push(e);
         }
     }
-    out.emit(reset_event::<Dense64>(grp * 3));
+    out.emit(reset_event_mode::<Dense64>(grp * 3, codec));
     for e in evd.iter() {
         out.emit(e.clone());
     }
     let mut fn_: File<NdArr> = File::new();
     let mut fa: File<Nalg> = File::new();
+    fn_.codec = codec;
+    fa.codec = codec;
     let mut evn: Vec<Option<Value>> = vec![];
     let mut eva: Vec<Option<Value>> = vec![];
     for (k, c) in calls.iter().enumerate() {
@@ -186,11 +229,11 @@ fn group(g: &mut Gen, grp: i64, nops: usize, out: &mut Out, agree: &mut Out) -> 
             e
         }));
     }
-    out.emit(reset_event::<NdArr>(grp * 3 + 1));
+    out.emit(reset_event_mode::<NdArr>(grp * 3 + 1, codec));
     for e in evn.iter().flatten() {
         out.emit(e.clone());
     }
-    out.emit(reset_event::<Nalg>(grp * 3 + 2));
+    out.emit(reset_event_mode::<Nalg>(grp * 3 + 2, codec));
     for e in eva.iter().flatten() {
         out.emit(e.clone());
     }
@@ -243,11 +286,16 @@ fn main() {
                     j += 1;
                 }
                 let run = evs[i]["run"].as_i64().unwrap_or(0);
+                let codec = match evs[i]["mode"].as_str().unwrap_or("plain") {
+                    "scale" => Codec::Scale(evs[i]["se"].as_i64().unwrap_or(0) as i32),
+                    "ulp" => Codec::Ulp,
+                    _ => Codec::Plain,
+                };
                 let calls: Vec<OpCall> = evs[i + 1..j].iter().filter(|e| e["ev"] == "Op").map(OpCall::from_json).collect();
                 match evs[i]["be"].as_str().unwrap_or("dense") {
-                    "ndarray" => replay::<NdArr>(run, &calls, &mut out),
-                    "nalgebra" => replay::<Nalg>(run, &calls, &mut out),
-                    _ => replay::<Dense64>(run, &calls, &mut out),
+                    "ndarray" => replay::<NdArr>(run, codec, &calls, &mut out),
+                    "nalgebra" => replay::<Nalg>(run, codec, &calls, &mut out),
+                    _ => replay::<Dense64>(run, codec, &calls, &mut out),
                 }
                 i = j;
             }
@@ -261,9 +309,10 @@ fn main() {
     }
 }
 
-fn replay<B: Be>(run: i64, calls: &[OpCall], out: &mut Out) {
+fn replay<B: Be>(run: i64, codec: Codec, calls: &[OpCall], out: &mut Out) {
     let mut file: File<B> = File::new();
-    out.emit(reset_event::<B>(run));
+    file.codec = codec;
+    out.emit(reset_event_mode::<B>(run, codec));
     for c in calls {
         if let Some(e) = file.exec(run, c) {
             out.emit(e);
